@@ -423,7 +423,8 @@ sys.unraisablehook = _quiet_unraisable
 
 def local_case(args):
     """args = (op, plan) with plan = [((label, occurrence), count), ...]: the first `count` attempts fail at that step."""
-    op, plan = args
+    op, plan = args[:2]
+    short_at = args[2] if len(args) > 2 else None     # occurrence of a raw os.write (within an attempt) that is short
     remaining = {tuple(p): c for p, c in plan}
     sc = H.worker_scratch()
     root = sc.sub()
@@ -452,6 +453,8 @@ def local_case(args):
     saved_sleep = backoff._sync.time
     backoff._sync.time = types.SimpleNamespace(sleep=new_attempt)
     fsteps = FSteps(root, step, reads=True, torn=True)
+    if short_at is not None:
+        fsteps.short_write_fn = lambda path, n: ctr['occ'].get('os-write', 0) - 1 == short_at
     fsteps.install()
     res = exc = src = None
     model = dict(state)
@@ -546,6 +549,16 @@ def local_op_cases(op):
                                 missing=sorted(set(o['model']) - set(o['truth'])))))
             if o['leftovers']:
                 vs.append((dict(sig0, what='temporary-file-left-behind', position=pos[0]), dict(d1, files=o['leftovers'])))
+    # a raw os.write may write less than it was given without failing: the object must still come out whole
+    for pos in positions:
+        if pos[0] != 'os-write':
+            continue
+        o = local_case((op, [], pos[1]))
+        n += 1
+        d1 = {'adapter': 'local', 'op': op, 'position': list(pos), 'short_write': True}
+        if o['exc'] is None and (o['truth'] != o['model'] or o['leftovers']):
+            vs.append((dict(sig0, what='short-write-not-completed', position=pos[0]),
+                       dict(d1, changed={k: len(v) for k, v in o['truth'].items() if o['model'].get(k) != v})))
     # pairs: one transient fault at each of two positions
     for p1, p2 in itertools.combinations(positions, 2):
         if op == 'list':
